@@ -80,8 +80,9 @@ CLAIMED = {
             "TLC shows the contract satisfiable under every bounded history of focus moves, scrolling, resizes and list edits, and judges the view "
             "rendered after every action of every recorded history (exhaustive small lists x keys x presses, random histories with set_focus / "
             "set_focus_valign / wheel / resize / walker insert-delete-replace; three walker kinds; heights 0,1,2,3,7; cursor rows).",
-            "Trusted: TLC, the row-labelled Item widget and canvas projection in vf/props/c07.py. Exceptions raised by keypress/mouse_event "
-            "(not by render) are reported as DIVERGENCE, the property speaks of rendering.",
+            "Trusted: TLC, the row-labelled Item widget and canvas projection in vf/props/c07.py. A ListBoxError raised by the list box's own view "
+            "calculation while it handles a key / press / wheel event is judged like a rendering failure (never_raises); other exceptions "
+            "from input handlers are DIVERGENCE.",
             "DESIGN.md §4 C07"),
     "C08": ("TLA+ contract FocusTreeOps.tla over a flat node table (valid focus child, focus path, arrow-to-selectable, selectable-iff-child, "
             "render-focus path); model FocusTree.tla (Pile of leaves / Columns under all bounded histories of arrows, assignments, deletions) "
